@@ -1,7 +1,8 @@
 SPECIFICATION Spec
 CONSTANTS
-  Calls = {"score", "cost_table", "parcons_partition", "parfront_partition", "borda", "copeland", "bioconsert", "bioco", "kwiksort", "pickaperm", "parcons", "exact", "read_score", "unified", "sub_problem", "eq_str", "bio2", "handbuilt_score"}
+  Calls = {"score", "cost_table", "parcons_partition", "parfront_partition", "borda", "copeland", "bioconsert", "bioco", "kwiksort", "pickaperm", "parcons", "exact", "read_score", "unified", "sub_problem", "eq_str", "bio2", "handbuilt_score", "handbuilt_full", "mut_remove_element", "mut_remove_rate"}
   Random = {"kwiksort"}
+  Mutators = {"mut_remove_element", "mut_remove_rate"}
   MaxLen = 3
 INVARIANT Repeatable
 PROPERTY NoMutation
